@@ -17,8 +17,18 @@ Definition parse_i64 (s : bytes) : option Z :=
   | None => None
   end.
 
-(* int64 addition wraps *)
+(* int64 addition wraps (the code as first found) *)
 Definition wrap64 (z : Z) : Z := ((z + 2 ^ 63) mod 2 ^ 64 - 2 ^ 63)%Z.
+
+(* the repaired sum saturates: if age > MaxInt64 - now then MaxInt64 else age + now *)
+Definition max_i64 : Z := (2 ^ 63 - 1)%Z.
+Definition sat_add (age now : Z) : Z := if (max_i64 - now <? age)%Z then max_i64 else (age + now)%Z.
+
+(* the Cache-Control field lines arrive separated by byte 10; the repaired code joins them
+   with commas into one list, the code as first found read the first line only *)
+Definition join_lines (raw : bytes) : bytes := map (fun c => if c =? 10 then 44 else c) raw.
+Fixpoint first_line (raw : bytes) : bytes :=
+  match raw with [] => [] | c :: r => if c =? 10 then [] else c :: first_line r end.
 
 (* ---- Cache-Control ---- *)
 Fixpoint split_all (c : N) (s : bytes) (cur : bytes) : list bytes :=
@@ -52,11 +62,12 @@ Definition cache_control_max_age (h : bytes) : option Z :=
   match h with [] => None | _ => last_max_age (split_all 44 h []) None end.
 
 (* expires = result of time.Parse on a non-empty Expires header, if it parsed *)
-Definition header_expiry (now : Z) (expires : option Z) (cache_control : bytes) : Z :=
-  match cache_control_max_age cache_control with
-  | Some age => wrap64 (age + now)
+Definition header_expiry_gen (repaired : bool) (now : Z) (expires : option Z) (cache_control : bytes) : Z :=
+  match cache_control_max_age (if repaired then join_lines cache_control else first_line cache_control) with
+  | Some age => if repaired then sat_add age now else wrap64 (age + now)
   | None => match expires with Some e => e | None => 0%Z end
   end.
+Definition header_expiry := header_expiry_gen true.
 
 (* ---- body: encoding/json into struct{NewAddress `m.server`; CacheExpiresAt int64} ---- *)
 (* foldName: ASCII upper case; U+017F and U+212A are the only other runes folding to ASCII *)
@@ -118,7 +129,7 @@ Inductive wk_result := WkErr | WkOk (addr : bytes) (expires : Z).
 Record wk_reply := {
   r_status : Z;                 (* resp.StatusCode *)
   r_content_length : bytes;     (* Content-Length header, empty when absent *)
-  r_cache_control : bytes;
+  r_cache_control : bytes;      (* the Cache-Control field lines, separated by byte 10 *)
   r_expires : option Z;         (* time.Parse result of a non-empty Expires header *)
   r_body : bytes;
   r_body_read_ok : bool         (* false: the body reader fails *)
@@ -134,7 +145,7 @@ Definition lookup_gen (repaired : bool) (now : Z) (r : wk_reply) : wk_result :=
   else if repaired && (max_size <? N.of_nat (length (r_body r))) then WkErr
   else
     let body := if repaired then r_body r else firstn (N.to_nat max_size) (r_body r) in
-    let hexp := header_expiry now (r_expires r) (r_cache_control r) in
+    let hexp := header_expiry_gen repaired now (r_expires r) (r_cache_control r) in
     match decode_body body with
     | None => WkErr
     | Some f =>
